@@ -8,6 +8,7 @@ sys.path.insert(0, os.path.join(ROOT, "lib"))
 import vunit
 import kunit
 import inventory
+import unitdeps
 from rsx import ExtractError
 
 REPO = os.environ.get("VERIF_REPO", "/repo")
@@ -219,8 +220,21 @@ def decide(pid, tier, seed):
                 futs.append(ex.submit(run_verus_unit, u, os.path.join(scratch, "v_" + u), tier, seed))
             for u in pc.get("kani", []):
                 futs.append(ex.submit(kunit.run_kani_unit, u, os.path.join(scratch, "k_" + u), tier, seed, REPO, pid))
+            # the units whose contracts this property's own units ASSUME (stand-ins "proved in unit X"): verified too,
+            # only to know whether those assumptions stand on this tree (lib/unitdeps.py)
+            own = sorted({u.split("@")[0] for u in pc.get("verus", [])})
+            extra, assumed = unitdeps.closure(own)
+            dfuts = []
+            for b in sorted(extra):
+                vj = os.path.join(ROOT, "units", b, "variants.json")
+                names = [f"{b}@{v}" for v in json.load(open(vj))] if os.path.exists(vj) else [b]
+                for u in names:
+                    dfuts.append(ex.submit(run_verus_unit, u, os.path.join(scratch, "d_" + u), "quick", seed))
             for f in futs:
                 results.append(f.result())
+            for f in dfuts:
+                r = f.result(); r.dep_only = True; r.assumed = assumed.get(r.name.split("@")[0], set())
+                results.append(r)
         # entry points (trait-impl methods, pub functions) that appeared in a file this property's units read after the
         # contracts were written: an operation nobody argued about -> the answer cannot be "holds"
         inv = UnitResult("inventory", "inventory")
@@ -243,11 +257,40 @@ def report(pid, tier, seed, pc, results, wall, scratch):
     all_obl, failures, undecided, trusted, functions, notes, bounded, samples = [], [], [], [], [], [], [], []
     solver = 0.0
     cmds = []
+    dep_notes = []
     for r in results:
+        if getattr(r, "dep_only", False):
+            # a dependency unit: nothing of it is counted for this property; what matters is whether the functions this
+            # property's units assume (stand-ins) still meet their contracts
+            base = r.name.split("@")[0]
+            _, ext, _ = unitdeps.info(base)
+            bad = []
+            for f in r.failures:
+                tm = ext.get(f.get("fn") or "")
+                if tm is None or tm in r.assumed:
+                    if not any(match_known(known, q, f["obligation"]) for q in f["props"]):
+                        bad.append(f.get("fn") or f["obligation"])
+            if bad:
+                undecided.append(f"{r.name} (a unit whose contracts {pid}'s units assume): {', '.join(sorted(set(bad)))} no longer meet(s) the contract assumed of it; {pid} is not answered 'holds' (the violation is reported by the checks that contract is attributed to)")
+            if r.undecided:
+                undecided.append(f"{r.name} (a unit whose contracts {pid}'s units assume) could not be verified on this tree: {r.undecided[0][:200]}")
+            dep_notes.append(f"{r.name}: contracts of {', '.join(sorted(t + '::' + m for t, m in r.assumed))} assumed by this property's units; the unit was re-verified in this run ({'failed / undecided' if (bad or r.undecided) else 'verified'})")
+            solver += r.solver_s
+            continue
         # only the obligations mapped to this property are counted for it
+        fnprops = {x["name"]: x.get("props", []) for x in r.functions}
+        sibling = {}
         for f in r.failures:
             if pid in f["props"]:
                 failures.append((r, f))
+            elif r.route == "verus" and f.get("fn"):
+                # MODULAR SOUNDNESS: within a Verus unit every caller is verified against its callees' CONTRACTS.  When a
+                # function of the unit fails a clause — even one attributed to other properties only — the proofs of this
+                # property's clauses in its callers rest on a contract that no longer holds.  The violation itself is
+                # reported by the checks the clause is attributed to; this property is not answered "holds".
+                if not any(match_known(known, q, f["obligation"]) for q in f["props"]):
+                    sibling.setdefault(f["fn"], set()).update(f["props"])
+        undecided += [f"{r.name}: {fn} fails an obligation attributed to {','.join(sorted(ps)) or 'no property'}; the unit's proofs for {pid} are modular over that contract, so {pid} is not answered 'holds' (see the check of {','.join(sorted(ps)) or 'the unit'} for the violation)" for fn, ps in sorted(sibling.items())]
         undecided += [f"{r.name}: {u}" for u in r.undecided]
         trusted += getattr(r, "trusted_named", []) if r.route == "verus" else r.trusted
         functions += r.functions
@@ -257,7 +300,8 @@ def report(pid, tier, seed, pc, results, wall, scratch):
         cmds.append(r.cmd)
         all_obl += r.obligations
         samples += r.samples
-    relevant = relevant_obligations(pid, results)
+    relevant = relevant_obligations(pid, [r for r in results if not getattr(r, 'dep_only', False)])
+    notes += dep_notes
     out_dir = os.path.join(ROOT, "replays", "out", pid)
     viol_lines, known_lines = [], []
     nviol = 0
